@@ -32,9 +32,10 @@ class Session:
 
 	def __init__(self, ctx: Ctx) -> None:
 		from rogw.tranp.semantics.reflections import Reflections
+		self.ctx = ctx
 		self.app = common.MemApp(ctx.tmpdir())
 		self.Reflections = Reflections
-		self.loaded = False
+		self.history: list[tuple[str, list[Any]]] = []   # programs already analysed in this session (for history-dependent replays)
 
 	def statements(self, src: str, fn_path: str = 'file_input.function_def') -> tuple[Any, list[Any]]:
 		mod = self.app.module(src)
@@ -103,7 +104,9 @@ def infer_session(ctx: Ctx, rng: random.Random, n_modules: int, per_module: int,
 	first = True
 	kinds = list(mix)
 	for _ in range(n_modules):
-		extra = [(f'w{i}', X.Gen(rng, [], 'infer').pick_ty(2)) for i in range(rng.randint(0, 3))]
+		# extra parameters: names that are prefixes / extensions of the fixed ones, random (nested) types
+		pool = rng.sample(['aa', 'a0', 'pp', 'xs_', 'xsx', 'dd2', 'ss0', 'tt', 'oo', 'w', 'ww', 'b_'], rng.randint(0, 4))
+		extra = [(nm, X.Gen(rng, [], 'infer').pick_ty(2)) for nm in pool]
 		env = [*X.BASE_ENV, *extra]
 		exprs = []
 		for _ in range(per_module):
@@ -270,10 +273,14 @@ SEARCH_ENV: list[tuple[str, X.Ty]] = [
 ]
 
 
+def ctx_of(sess: 'Session') -> Ctx:
+	return sess.ctx
+
+
 def finding_of(dis: dict[str, Any], src: str, call: Any, session: str) -> Finding:
 	what = (f"{dis['why']}: `{dis['text']}` inferred {dis['real']} but CPython computed {dis['runtime']}"
 		if dis['why'] == 'type' else f"{dis['why']}: `{dis['text']}` -> {dis['real']} although CPython computed {dis['runtime']}")
-	return Finding(key=dis['key'], what=what, replay={'program': src, 'call': call, 'span': dis['span'], 'text': dis['text'],
+	return Finding(key=dis['key'], what=what, replay={'program': src, 'call': [[c[0], repr(list(c[1]))] for c in call], 'span': dis['span'], 'text': dis['text'],
 		'inferred': dis['real'], 'runtime': dis['runtime'], 'raw_key': dis['raw_key'], 'session': session})
 
 
@@ -301,8 +308,20 @@ def check_program(sess: Session, src: str, calls: list[tuple[str, list[Any]]], r
 	dis, stats = S.compare(run, refl, mod)
 	for k, v in stats.items():
 		res.histogram[f'{label}:{k}'] = res.histogram.get(f'{label}:{k}', 0) + v
+	history = None
+	if dis and sess.history and label != 'replay' and res.histogram.get('history-checks', 0) < 3:
+		# does the failure need the session's history? (re-check alone in a fresh session; if it vanishes the replay carries the history)
+		res.histogram['history-checks'] = res.histogram.get('history-checks', 0) + 1
+		alone = SearchResult('alone')
+		check_program(Session(ctx_of(sess)), src, calls, alone, session, 'replay')
+		if {f.key for f in alone.findings} != {d['key'] for d in dis}:
+			history = [{'program': p, 'call': [[x[0], repr(list(x[1]))] for x in c]} for p, c in sess.history]
 	for d in dis:
-		res.findings.append(finding_of(d, src, calls[:3], session))
+		fd = finding_of(d, src, calls[:3], session)
+		if history is not None:
+			fd.replay['history'] = history
+		res.findings.append(fd)
+	sess.history.append((src, calls[:3]))
 	if len(res.samples) < 2 and stats['compared'] > 3:
 		res.samples.append({'program': src[:600], 'stats': stats})
 
@@ -402,7 +421,41 @@ def search_typed_programs(ctx: Ctx) -> SearchResult:
 	return res
 
 
-STATEMENTS: dict[str, str] = {}
+STATEMENTS: dict[str, str] = {
+	'dunder': 'every scalar binary-operator row (class, dunder, argument type) -> return type of the table generated from classes.py states CPython\'s result type (all operand values; 56 rows today, decided over the whole table)',
+	'dunder_unary': 'the __neg__/__pos__ rows state CPython\'s result type',
+	'step_agreement': 'on scalar operands one step of each_binary_operator gives CPython\'s type, or is bool &,| int (typed bool), or CPython rejects the operands: no other scalar disagreement exists',
+	'sound_statement / sound_counterexample': 'FULL statement (on Core the inferred type denotes the run-time value) is FALSE on the current code: -True is typed bool, CPython computes int',
+	'sound_counterexample_bool_or_int / _tuple_slice': 'two more concrete Core expressions on which the inferred type is not the run-time type (True | 2; t[0:1])',
+	'sound_partial': 'on the agreement subset (Core minus unary-on-bool, bool&|int, tuple slice): infer succeeds from every session state, leaves it untouched, and the inferred type denotes the value CPython computes (induction over expressions incl. stub calls and comprehensions)',
+	'sound': 'same hypotheses + determined value + plain inferred type: infer Γ e = ok (typeOf v)',
+	'total': 'on Core inference never fails and the inferred type contains no Unknown (env without Unknown)',
+	'wellTyped_core': 'the agreement subset is contained in Core',
+	'session_independent_statement / _counterexample / _partial': 'the result must not depend on the session state: FALSE (second heterogeneous list literal raises Errors.Never); true on Core',
+	'template_statement / _counterexample / _partial': 'list[T].pop() is typed T: FALSE for T = int | None (typed int); true for the union-free shapes used by the streams',
+}
+
+PARTIAL = {
+	'proved': 'int/float/bool/str, list[T], dict[K,V], tuple[...], optionals (as denotation of a Union), stub generics with their arguments (list/dict/str methods, len/abs/min/max/int/float/bool/str/list/range/reversed/enumerate), '
+		'literals, variables, unary/binary operators, comparisons, and/or/not, ternary, subscripts, slices, groups, list/dict comprehensions: soundness and totality on the model, by induction on expressions',
+	'correspondence_only': 'that the model IS the code: ProceduralResolver handlers, try_operation, TemplateManipulator path matching, on_list session state (stream infer); CPython semantics of the core (stream pytype)',
+	'search_only': 'scope lookup, inheritance walk, user classes and their attributes/methods, Enum, user generics, resolve_unknown laziness, statements (for/while/try), declarations',
+	'false_on_current_code': 'sound_statement, session_independent_statement, template_statement (each with a proved counterexample that the search replays on the real code)',
+}
+
+ASSUMPTIONS = [
+	'stub classes have fewer than ten attributes per symbol (dotted-path prefix test of template.py = list prefix)',
+	'comprehension targets do not shadow parameters; a referenced unpacking target beyond the item arity is not generated (raw IndexError / Errors.Fatal depending on context)',
+	'at most one ill-typed atom per generated expression (error precedence between two faults inside a comprehension is not modelled)',
+	'pytype domain: |int| < 2^50, finite floats of moderate magnitude, containers up to 64 items, ASCII strings (enforced at run time by a checker around every intermediate value; outside cases are discarded, not compared)',
+	'search oracle: only determined run-time types are compared; the value of an expression statement is not compared; type arguments of user generics are erased at run time and not compared; instances of a subclass are accepted for the declared base class',
+]
+
+TRUSTED = [
+	'CPython 3.12 as the oracle of run-time types (streams pytype and every search)',
+	'Lean `Float` = IEEE binary64 with the C operations CPython uses (only the value flow through conditions depends on it)',
+	'tranp source spans (C16) to pair CPython ast nodes with tranp nodes in the search',
+]
 
 
 def run(ctx: Ctx) -> int:
@@ -410,19 +463,38 @@ def run(ctx: Ctx) -> int:
 	translate_ok, translate_msg = True, ''
 	try:
 		ctx.generated_tables.extend(gen_dunder.generate())
-	except Exception as e:  # noqa: BLE001
+	except Exception as e:  # noqa: BLE001 - the tie to classes.py is broken: reported by finish, never a silent success
 		translate_ok, translate_msg = False, f'{type(e).__name__}: {e}'
 	proof = common.prove(ctx, PROP, leanchecker=ctx.thorough)
 	with ctx.timed('correspondence'):
 		streams = [stream_infer(ctx), stream_pytype(ctx)]
 	with ctx.timed('search'):
 		searches = [search_witnesses(ctx), search_exprs(ctx), search_programs(ctx), search_typed_programs(ctx)]
-	return common.finish(ctx, proof, streams, searches, statements=STATEMENTS, translate_ok=translate_ok, translate_msg=translate_msg)
+	return common.finish(ctx, proof, streams, searches, statements=STATEMENTS, partial=PARTIAL, assumptions=ASSUMPTIONS, trusted=TRUSTED,
+		translate_ok=translate_ok, translate_msg=translate_msg)
 
 
 def replay(ctx: Ctx, path: str) -> int:
+	"""--replay FILE: a failing-input file is re-checked on the real code alone; any other replay file re-runs the check with its seed"""
 	with open(path, encoding='utf-8') as f:
 		rec = json.load(f)
+	inp = rec.get('input') or {}
+	if rec.get('kind') == 'failing-input' and 'program' in inp:
+		res = SearchResult('replay')
+		def parse_calls(cs: Any) -> list[tuple[str, list[Any]]]:
+			return [(c[0], ast.literal_eval(c[1]) if isinstance(c[1], str) else c[1]) for c in cs or []]
+		calls = parse_calls(inp.get('call'))
+		print(inp['program'])
+		sess = Session(ctx)
+		for h in inp.get('history') or []:
+			check_program(sess, h['program'], parse_calls(h.get('call')), SearchResult('history'), 'history', 'replay')
+		check_program(sess, inp['program'], calls, res, 'replay', 'replay')
+		for fd in res.findings:
+			print(f'REPRODUCED key={fd.key}: {fd.what}')
+		if not res.findings:
+			print('not reproduced in a fresh session (history-dependent findings need the recorded session: see "session" in the file)')
+		ctx.cleanup()
+		return 1 if res.findings else 0
 	print(json.dumps(rec, indent=1)[:4000])
 	ctx2 = Ctx(PROP, rec.get('tier', 'quick'), int(rec.get('seed', 0)))
 	return run(ctx2)
